@@ -32,6 +32,25 @@ def native_py(contract, name, conc, notes):
     if contract.target.__name__.endswith("_after_new_frame"):
         return RP.replay(contract, name, {k: v for k, v in conc.items()}, call_history, S)
 
+    if contract.target.__qualname__ == "ProcessDesc.__get__":
+        from ebpfcat.ebpfcat import ProcessDesc
+        from ebpfcat.ethercat import SyncManager, Terminal
+        override = conc["self"]["size"]
+        mapped = "H" if "mapped 'H'" in contract.short else 5
+        sm = conc["sm"] if isinstance(conc["sm"], SyncManager) else SyncManager(conc["sm"])
+        t = object.__new__(Terminal)
+        t.position_offset = {None: 0x10}
+        t.pdos = {(0x6010, 1): (sm, conc["offset"], mapped)}
+        var = ProcessDesc(0x6000, 1, override).__get__(t, Terminal)
+        want = override if override is not None else mapped
+        ok = var.terminal is t and var.sm == sm and var.position == conc["offset"] and var.size == want \
+            and type(var.size) is type(want)
+        return {"inputs": {"override": override, "mapped": mapped, "sm": sm.name, "offset": conc["offset"]},
+                "reproduced": not ok,
+                "detail": f"real ProcessDesc(0x6000, 1, {override!r}).__get__ on a terminal whose PDO mapping has "
+                          f"({sm.name}, {conc['offset']}, {mapped!r}): PacketVar(sm={var.sm.name}, "
+                          f"position={var.position}, size={var.size!r}); the declared size is {want!r}"}
+
     def call(args):
         f = args["self"]
         term = object()
